@@ -109,6 +109,9 @@ class Sys(e2.DevSys):
         elif nfind == 1 and c.get("lifecycle") and self.started and self.stopped_at is None and self.finds[0][1] == 1:
             # a unicast request while the answer to a multicast request may still be pending
             acts.append(("find", 0) + tuple(c["finds"][0]))
+        if c.get("lifecycle") and nfind == 1 and not any(e == "evidence" for e in getattr(self, "extra", ())):
+            # an SD message from the requester that reveals its reboot, while an answer to it may be pending / collected
+            acts.append(("evidence", 0))
         if c.get("lifecycle") and nfind == 0:
             if self.started:
                 acts += [("ann-stop",), ("stop+find", 0), ("stop+find", 1), ("connlost",)]
@@ -149,6 +152,10 @@ class Sys(e2.DevSys):
             self.started = False
             self.stopped_at = now
             self.prot.connection_lost(None)
+        elif act[0] == "evidence":
+            self.extra = getattr(self, "extra", ()) + ("evidence",)
+            data = refcodec.sd_message(self.session, [])  # the session id of the request again, reboot flag set
+            self.prot.datagram_received(data, REQ, bool(self.finds[-1][1]))
         elif act[0] == "stop+find":
             # the FindService arrives in the same loop iteration, right after stop() was called
             self.started = False
@@ -281,7 +288,7 @@ def restrict(thorough, cfg, devs, p, k):
             return p[2][0] in ("find", "ann-start") and p[0] - devs[0][0] <= (1.2 if thorough else 0.3)
         if first == "find":
             # a stop shortly after a find (while the delayed answer is pending)
-            if p[2][0] in ("ann-stop", "connlost"):
+            if p[2][0] in ("ann-stop", "connlost", "evidence"):
                 return p[0] - devs[0][0] <= 0.1
             # a unicast request while the delayed answer to a multicast request is pending: its answer overtakes
             return p[2][0] == "find" and devs[0][2][1] == 1 and p[2][1] == 0 and p[0] - devs[0][0] <= 0.07 \
